@@ -217,9 +217,12 @@ func c14Once(p *g3Proto, role protocol.ProtocolRole, pct int, path []*g3Sample, 
 	entryIdx := lastStateIdx(ev)
 	t0 := ev[entryIdx].At
 	armedNow := false
+	// the timeout the engine actually armed (a TimeoutFunc draws it from a range)
+	armedDur := T
 	for i := entryIdx + 1; i < len(ev); i++ {
 		if ev[i].Kind == "arm" {
 			armedNow = true
+			armedDur = time.Duration(ev[i].B)
 		}
 	}
 	hasErr := func(ev []g3Event, _ []uint8) bool {
@@ -230,7 +233,7 @@ func c14Once(p *g3Proto, role protocol.ProtocolRole, pct int, path []*g3Sample, 
 		}
 		return false
 	}
-	stall := T * time.Duration(pct) / 100
+	stall := armedDur * time.Duration(pct) / 100
 	if pct >= 200 && armedNow {
 		// the engine says it armed a timer: wait for it to fire, however slow the machine is
 		fx.waitFor(g3Deadline, hasErr)
@@ -251,7 +254,7 @@ func c14Once(p *g3Proto, role protocol.ProtocolRole, pct int, path []*g3Sample, 
 	if staleCheck {
 		ev, _ = fx.snapshot()
 		movedAt = ev[lastStateIdx(ev)].At
-		if d := time.Until(t0.Add(T * 13 / 10)); d > 0 {
+		if d := time.Until(t0.Add(armedDur * 13 / 10)); d > 0 {
 			fx.waitFor(d, hasErr)
 		}
 	}
@@ -283,11 +286,18 @@ func c14Once(p *g3Proto, role protocol.ProtocolRole, pct int, path []*g3Sample, 
 	// timeout is reported.)
 	if staleCheck && cls == "timeout" {
 		// a timeout after the move: legitimate only if it belongs to a timer armed by the move
-		// (>= T after it; every other state's timeout is an hour)
-		if errAt.Sub(movedAt) >= T*95/100 {
+		// (no earlier than that timer's own timeout after the move)
+		movedIdx := lastStateIdx(ev)
+		legit := false
+		for i := movedIdx + 1; i < len(ev); i++ {
+			if ev[i].Kind == "arm" && errAt.Sub(movedAt) >= time.Duration(ev[i].B)*95/100 {
+				legit = true
+			}
+		}
+		if legit {
 			cls = "none"
 		}
-	} else if pct <= 50 && cls == "timeout" && armed == 1 && errAt.Sub(t0) >= T*95/100 {
+	} else if pct <= 50 && cls == "timeout" && armed == 1 && errAt.Sub(t0) >= armedDur*95/100 {
 		return "", false
 	}
 	return fmt.Sprintf("err=%s armed=%d moved=%d", cls, armed, moved), true
